@@ -57,6 +57,7 @@ pub struct Report {
     pub labels: BTreeMap<String, u64>,
     pub digest: u64,
     pub observed: u64,
+    pub selfcheck_terms: u64,
 }
 
 // ---------------------------------------------------------------- panic capture
@@ -348,6 +349,23 @@ pub fn explore(limits: &Limits, seed: u64, symbolic: bool, initial: &[(String, i
         }
         if rep.witnesses.len() < 3 {
             rep.witnesses.push(named_model(&c, &model_now));
+        }
+        // ---- self-check of the engine: every recorded branch constraint must evaluate to true under the very
+        // model the run was executed with (catches a concrete/symbolic mismatch inside SymInt or the term store)
+        if symbolic {
+            let mut memo = std::collections::HashMap::new();
+            let f = |i: u32| -> i64 { model_now.get(i as usize).copied().unwrap_or(0) };
+            for b in trace.iter() {
+                let ok = matches!(c.store.eval(b.taken, &f, &mut memo), crate::term::Val::B(true));
+                rep.selfcheck_terms += 1;
+                if !ok {
+                    if rep.refused.len() < 5 {
+                        rep.refused.push("SYMX-INTERNAL: a recorded branch constraint is false under the model of its own run".to_string());
+                    }
+                    rep.complete = false;
+                    break;
+                }
+            }
         }
         // ---- divergence check
         let mut diverged = false;
